@@ -352,7 +352,7 @@ def _tag(name):
     return re.sub(r"[^A-Za-z0-9_.-]+", "_", name)[:120] + f"_{abs(hash(name)) % 10**6}"
 
 
-def discharge(obls, timeout_s=20, jobs=16, all_backends=False, keep_dir=None, refute=True):
+def discharge(obls, timeout_s=20, jobs=16, all_backends=False, keep_dir=None, refute=True, give_up=None):
     """Phased discharge.  A: plain query on z3 5.1.  B: cvc5 and z3 4.8 on what is left.  C: goal-directed ground
     instances (proving from a subset of instances is sound) and, failing that, the quantifier-free refuting query.
     z3 python objects are only touched in the calling thread; solver processes run in parallel."""
@@ -422,6 +422,12 @@ def discharge(obls, timeout_s=20, jobs=16, all_backends=False, keep_dir=None, re
         def skip_siblings():
             # obligations of a function that already has a refuted obligation are moot: the ladder is not spent on them
             bad = {obls[i].fn for i in range(n) if verdicts[i] is not None and verdicts[i].status == "refuted" and obls[i].fn}
+            if give_up is not None:
+                # the native evaluation (running concurrently) already holds a concrete failing input for these functions
+                for i in range(n):
+                    if verdicts[i] is None and obls[i].fn not in ("lemma", "struct") and give_up(obls[i].fn):
+                        verdicts[i] = Verdict(obls[i].name, obls[i].kind, "unknown", "-", t_used[i],
+                                              detail="not pursued further: the native evaluation of this function's contract already fails")
             for i in range(n):
                 if verdicts[i] is None and obls[i].fn in bad and obls[i].fn not in ("lemma", "struct"):
                     verdicts[i] = Verdict(obls[i].name, obls[i].kind, "skipped", "-", t_used[i],
